@@ -61,6 +61,8 @@ var c01PathCodes = crs(
 	`^duplicated labels key`, "group:labels:dupinner",
 	`^rules must be a list`, "group:rules:type",
 	`^partial_response_strategy is only valid`, "group:partial_response_strategy:schema",
+	`^partial_response_strategy must be a string`, "group:partial_response_strategy:type",
+	`^invalid partial_response_strategy value`, "group:partial_response_strategy:value",
 	`^invalid group key`, "group:unknown",
 	`^duplicated key groups$`, "file:top:dup",
 	`^duplicated key (\w+)`, "group:dup:$1",
@@ -154,9 +156,9 @@ func c01Scheme(names string) model.ValidationScheme {
 
 // c01Run gives the same bytes to pint (strict, offline, default config) and to rulefmt.
 // model.NameValidationScheme is a process-wide global written by pint's parser: callers batch by scheme.
-func c01Run(dir string, content []byte, names string) c01Obs {
+func c01Run(dir string, content []byte, names string, thanos ...bool) c01Obs {
 	res := pipe.Lint(dir, map[string][]byte{"rules.yml": content}, []string{"rules.yml"},
-		pipe.Opts{Strict: true, Offline: true, Command: "lint", UTF8: names != "legacy"})
+		pipe.Opts{Strict: true, Offline: true, Command: "lint", UTF8: names != "legacy", Thanos: len(thanos) > 0 && thanos[0]})
 	o := c01Obs{Codes: []string{}, PromErr: []string{}, Entries: len(res.Entries), Err: res.FindErr + res.CfgErr}
 	if res.Panic != "" {
 		o.Panic = strings.SplitN(res.Panic, "\n", 2)[0]
@@ -216,8 +218,8 @@ func init() {
 				dir, _ := os.MkdirTemp(shmDir(), "c01-")
 				defer os.RemoveAll(dir)
 				content := schemadoc.Render(docs[i])
-				o := c01Run(dir, content, names)
-				results[i] = rec{"ev": "Doc", "id": i + 1, "doc": docs[i], "yaml": string(content), "obs": o}
+				o := c01Run(dir, content, names, docs[i].Schema == "thanos")
+				results[i] = rec{"ev": "Doc", "id": i + 1, "doc": docs[i], "yaml": strings.ToValidUTF8(string(content), "\uFFFD"), "obs": o}
 			})
 		}
 		for _, r := range results {
@@ -307,7 +309,7 @@ func init() {
 			o := c01Run(dir, content, "utf8")
 			os.RemoveAll(dir)
 			out.Write(map[string]any{"ev": "Mut", "id": i + 1, "base": b.Name, "ops": "replay", "skipped": c01PintComment.Match(content),
-				"clean": o.Clean, "prom_ok": o.PromOK, "nbug": o.NBug, "panic": o.Panic})
+				"clean": o.Clean, "prom_ok": o.PromOK, "nbug": o.NBug, "panic": o.Panic, "obs": o})
 		}
 		return nil
 	})
